@@ -168,6 +168,8 @@ class OpSummary:
             out = dict(rel)
             if "ge" in rel: out["lt"] = not rel["ge"]
             if "le" in rel: out["gt"] = not rel["le"]
+            # integers: a succeeded `==` (the Equal arm of `a.cmp(&b)`, or an `if a == b`) excludes both orders
+            if rel.get("eq") is True or rel.get("ne") is False: out["lt"] = False; out["gt"] = False
             return out
         drel = norm(drel)
         if drel.get("lt") is True: d = "lt"
